@@ -2952,8 +2952,13 @@ class MemoryObjectStore(PackCapableObjectStore):
                     # ``add_thin_pack`` already validates via
                     # ``PackStreamCopier.verify``; do the equivalent here.
                     p.check()
+                    # Inflate and copy every object before adding any of
+                    # them: a pack whose later objects fail to inflate or
+                    # parse must leave the store as it was.
+                    staged: dict[ObjectID, ShaFile] = {}
                     for obj in PackInflater.for_pack_data(p, self.get_raw):
-                        self.add_object(obj)
+                        staged[obj.id] = obj.copy()
+                    self._data.update(staged)
                 finally:
                     p.close()
                     f.close()
